@@ -1,23 +1,12 @@
 (* Proofs/ValidTreeProofs.v — property C02, bottom-up: what Assemble writes for a section, a file and
    a (non-resizable) volume passes the checks of the independent reader (Model/Valid.v), given that
    the leaves it copies verbatim were valid. *)
-From Fiano Require Import Base.Bytes Base.BytesLemmas Gen.Consts Model.Ffs Model.Edit Model.Valid
+From Fiano Require Import Base.Bytes Base.BytesLemmas Gen.Consts Model.Ffs Model.Edit Model.Valid Model.ValidInv
   Proofs.EditProofs Proofs.AsmProofs Proofs.ValidProofs.
 From Coq Require Import ZifyBool ZifyNat.
 Open Scope Z_scope.
 
 (* ---------- one section ---------- *)
-
-(* the reader's checks of one section, given exactly its bytes; sections that hold a volume
-   (type 23) and GUID-defined sections (type 2: the reader opens compressed ones) are outside this
-   predicate: see the scope note of C02_valid_after_edits_partial *)
-Definition v_sec0 (sb : bytes) : bool :=
-  (4 <=? zlen sb) &&
-  let size3 := rd 0 3 sb in
-  let big := size3 =? 16777215 in
-  (if big then 8 <=? zlen sb else true) &&
-  ((if big then rd 4 4 sb else size3) =? zlen sb) &&
-  negb (rd 3 1 sb =? 23) && negb (rd 3 1 sb =? 2).
 
 Lemma join4_prefix : forall l acc, exists T, join4 acc l = acc ++ T.
 Proof.
@@ -39,6 +28,19 @@ Variable vfv : bytes -> bool.
 Variable venc : bytes -> bool.
 Variable dec : Z -> bytes -> option bytes.
 
+Lemma v_guided_opaque (A g R : bytes) p hl : zlen A = p -> 0 <= p -> 0 <= hl ->
+  guided_opaque g hl = true -> v_guided venc dec (A ++ g ++ R) p hl (zlen g) = true.
+Proof.
+  intros HA Hp Hhl Hg. unfold guided_opaque in Hg. apply andb_true_iff in Hg as [Hl Hc].
+  unfold v_guided. replace (zlen g <? hl + 20) with false by lia. cbv zeta.
+  assert (S16 : sub (p + hl) 16 (A ++ g ++ R) = sub hl 16 g) by (apply sub_mid; auto; lia).
+  assert (R18 : rd (p + hl + 18) 2 (A ++ g ++ R) = rd (hl + 18) 2 g).
+  { replace (p + hl + 18) with (p + (hl + 18)) by lia. apply rd_mid; auto; change (Z.of_nat 2) with 2; lia. }
+  rewrite S16, R18.
+  destruct (negb (Z.land (rd (hl + 18) 2 g) 1 =? 0) &&
+            ((codec_kind (sub hl 16 g) =? 1) || (codec_kind (sub hl 16 g) =? 3))); [discriminate | reflexivity].
+Qed.
+
 Lemma v_sections_step k (A g R : bytes) p : zlen A = p -> 0 <= p -> v_sec0 g = true ->
   v_sections vfv venc dec (S k) (A ++ g ++ R) p = v_sections vfv venc dec k (A ++ g ++ R) (align4 (p + zlen g)).
 Proof.
@@ -59,12 +61,16 @@ Proof.
     assert (R4 : rd (p + 4) 4 V = rd 4 4 g) by (unfold V; apply rd_mid; auto; lia).
     rewrite R4. replace (8 <=? rd 4 4 g) with true by lia.
     replace (p + rd 4 4 g <=? zlen V) with true by lia.
-    destruct (rd 3 1 g =? 23); [discriminate|]. destruct (rd 3 1 g =? 2); [discriminate|]. cbn [andb].
-    replace (rd 4 4 g) with (zlen g) by lia. reflexivity.
+    destruct (rd 3 1 g =? 23); [discriminate|]. cbn [andb].
+    replace (rd 4 4 g) with (zlen g) by lia.
+    destruct (rd 3 1 g =? 2); [|reflexivity].
+    unfold V. rewrite (v_guided_opaque A g R p 8); auto; lia.
   - cbn [andb]. replace (4 <=? rd 0 3 g) with true by lia.
     replace (p + rd 0 3 g <=? zlen V) with true by lia.
-    destruct (rd 3 1 g =? 23); [discriminate|]. destruct (rd 3 1 g =? 2); [discriminate|]. cbn [andb].
-    replace (rd 0 3 g) with (zlen g) by lia. reflexivity.
+    destruct (rd 3 1 g =? 23); [discriminate|]. cbn [andb].
+    replace (rd 0 3 g) with (zlen g) by lia.
+    destruct (rd 3 1 g =? 2); [|reflexivity].
+    unfold V. rewrite (v_guided_opaque A g R p 4); auto; lia.
 Qed.
 
 (* the reader walks the sections that join4 laid out behind a 4-aligned prefix *)
@@ -142,7 +148,7 @@ Proof.
   rewrite Em.
   replace (4 <=? ext) with true by (rewrite Hext; unfold e0; destruct big; lia).
   replace (s_type h =? 23) with false by lia. replace (s_type h =? 2) with false by lia.
-  cbn [negb andb]. rewrite !andb_true_r.
+  cbn [negb andb]. rewrite ?andb_true_r.
   destruct big eqn:Eb.
   - replace (8 <=? ext) with true by (rewrite Hext; unfold e0; lia). cbn [andb].
     assert (R4 : rd 4 4 (common ++ tsh ++ body) = ext).
@@ -266,8 +272,6 @@ Qed.
 End FileRebuilt.
 
 (* ---------- a section as Assemble leaves it ---------- *)
-
-Definition regen_type (t : Z) : bool := (t =? 21) || (t =? 20) || (t =? 19) || (t =? 27) || (t =? 28).
 
 Lemma gsh_len_ge h body : zlen body <= zlen (snd (gen_sec_header h body)).
 Proof.
@@ -394,25 +398,6 @@ Qed.
 End NodeAsm.
 
 (* ---------- the reader's volume check, split into header part and file walk ---------- *)
-
-Definition fv_doff (v : bytes) : Z :=
-  let eho := rd 52 2 v in
-  align8 (if eho =? 0 then rd 48 2 v else eho + rd (eho + 16) 4 v).
-
-Definition fv_hdr_ok (exact : bool) (v : bytes) : bool :=
-  (64 <=? zlen v) &&
-  (let len := rd 32 8 v in
-   let hdrlen := rd 48 2 v in
-   let eho := rd 52 2 v in
-   (rd 40 4 v =? 1213613663) &&
-   (64 <=? len) && (len <=? zlen v) && (if exact then zlen v =? len else true) &&
-   (64 <=? hdrlen) && (hdrlen <=? len) && Z.even hdrlen &&
-   (sum16 (sub 0 hdrlen v) =? 0) &&
-   (match v_blocks_sum (S (Z.to_nat (zlen v))) v 56 with
-    | Some (t, e) => (t =? len) && (e <=? hdrlen)
-    | None => false
-    end) &&
-   (if eho =? 0 then true else (hdrlen <=? eho) && (eho + 20 <=? len))).
 
 Lemma valid_fv_S dec d exact v :
   valid_fv dec (S d) exact v =
